@@ -23,7 +23,7 @@ RULES = {
 
 ASSUME = ['spec/layouts.json is a correct transcription of IEEE 1722-2016 / acf-vss.md (hand-checked, see DESIGN appendix A)',
           'values outside the stated lattices are not executed',
-          'eight worlds: an ILP32 one (gcc -m32, freestanding, own minimal C runtime; reduced lattice) and gcc -O2 (full lattice; the reduced lattice again with the object at a 16-byte boundary + 1 and + 4), gcc -O0 (the project\'s default build), gcc -O3 -DNDEBUG (CMake Release), clang -O2, gcc -O2 without predefined byte-order macros, gcc -O2 -fshort-enums, and clang -O1 with a 32-bit long (LLP64 data model), the latter six with the reduced lattice; other worlds are the subject of C14/C15']
+          'nine worlds: gcc -O2 -funsigned-char -march=x86-64-v3 with the BSD/newlib endian constants defined, and an ILP32 one (gcc -m32, freestanding, own minimal C runtime; reduced lattice) and gcc -O2 (full lattice; the reduced lattice again with the object at a 16-byte boundary + 1 and + 4), gcc -O0 (the project\'s default build), gcc -O3 -DNDEBUG (CMake Release), clang -O2, gcc -O2 without predefined byte-order macros, gcc -O2 -fshort-enums, and clang -O1 with a 32-bit long (LLP64 data model), the latter six with the reduced lattice; other worlds are the subject of C14/C15']
 
 
 def build(prop, opt='-O2', fresh=True, defs=(), cc='gcc', tag=''):
@@ -126,6 +126,12 @@ def run(prop, tier):
         # "identifier 256" does not exist as an argument there and the call legitimately addresses field 0)
         exee, _ = build(prop, '-O2', fresh=False, defs=('-fshort-enums',), tag='-shortenums')
         res = core.run_slices(exee, ['--suite', prop, '--tier', 'lite' if tier == 'quick' else 'quick'], timeout=timeout, result=res, tag='gcc -O2 -fshort-enums')
+    # plain char unsigned (the ARM/PowerPC/RISC-V ABIs), a newer instruction-set level (x86-64-v3: AVX2, BMI2 - code behind
+    # __AVX__/__BMI2__ is compiled), and a C library that defines the BSD/newlib endian constants (_BIG_ENDIAN is defined on
+    # every target there, little-endian ones included)
+    EXOTIC = ('-funsigned-char', '-march=x86-64-v3', '-D_LITTLE_ENDIAN=1234', '-D_BIG_ENDIAN=4321', '-D_PDP_ENDIAN=3412', '-D_BYTE_ORDER=_LITTLE_ENDIAN')
+    exex, _ = build(prop, '-O2', fresh=False, defs=EXOTIC, tag='-exotic')
+    res = core.run_slices(exex, ['--suite', prop, '--tier', 'lite' if tier == 'quick' else 'quick'], timeout=timeout, result=res, tag='gcc -O2 -funsigned-char -march=x86-64-v3, BSD endian constants defined')
     # the object under test at other addresses (16-byte boundary + 1 and + 4; all eight residues are C15's subject)
     for off in (1, 4):
         res = core.run_slices(exe, ['--suite', prop, '--tier', 'lite' if tier == 'quick' else 'quick', '--off', str(off)], timeout=timeout, result=res, tag='object at a 16-byte boundary + %d' % off)
